@@ -21,6 +21,7 @@ import (
 	"massnet.org/mass-wallet/masswallet/keystore"
 )
 
+//go:norace
 func init() {
 	Runners["C04"] = func(w *World, p map[string]int) { runKeys(w, p, "C04") }
 	Runners["C05"] = func(w *World, p map[string]int) { runKeys(w, p, "C05") }
@@ -34,6 +35,8 @@ type keyWallet struct {
 }
 
 // secretsOf lists byte strings that must never appear in clear.
+//
+//go:norace
 func secretsOf(ws *WalletState) ([][]byte, []string) {
 	var out [][]byte
 	var names []string
@@ -70,6 +73,7 @@ func secretsOf(ws *WalletState) ([][]byte, []string) {
 	return out, names
 }
 
+//go:norace
 func scanFor(hay []byte, secrets [][]byte, names []string) string {
 	for i, s := range secrets {
 		if bytes.Contains(hay, s) {
@@ -80,6 +84,8 @@ func scanFor(hay []byte, secrets [][]byte, names []string) string {
 }
 
 // Restart stops the instance cleanly and starts it again on the same disk.
+//
+//go:norace
 func (inst *Instance) Restart() error {
 	if !inst.StopSolo() {
 		return fmt.Errorf("Stop did not return: %v", inst.W.S.ParkedSummary())
@@ -90,6 +96,7 @@ func (inst *Instance) Restart() error {
 	return inst.StartSolo()
 }
 
+//go:norace
 func runKeys(w *World, p map[string]int, prop string) {
 	t := w.Plan
 	k := drawKnobs(w)
@@ -462,6 +469,8 @@ func runKeys(w *World, p map[string]int, prop string) {
 }
 
 // longest returns the instance copy of a wallet with the most issued addresses.
+//
+//go:norace
 func longest(kw *keyWallet, insts []*Instance) *WalletState {
 	best := kw.ws
 	for _, inst := range insts {
